@@ -79,6 +79,7 @@ struct primesieve_verif_probe
   }
 };
 
+extern uint64_t (*primesieve_verif_nth_approx)(uint64_t);
 extern uint64_t primesieve_verif_min_thread_distance;
 extern void (*primesieve_verif_piece_hook)(uint64_t i, uint64_t start, uint64_t stop);
 bool isPrimeOracle(uint64_t n);
@@ -769,6 +770,10 @@ bool oracleNth(long long n, uint64_t start, uint64_t& out)
   }
 }
 
+// hook H4: constant replacement of nthPrimeApprox()
+uint64_t nthApproxValue = 0;
+uint64_t nthApproxConst(uint64_t) { return nthApproxValue; }
+
 int streamNth(std::istream& in)
 {
   std::string line;
@@ -783,6 +788,9 @@ int streamNth(std::istream& in)
     primesieve::set_num_threads(atoi(t[3].c_str()));
     primesieve::set_sieve_size(atoi(t[4].c_str()));
     bool capi = t[5] == "c";
+    // optional 7th token abs=<v>: nthPrimeApprox() is replaced by the constant v (hook H4)
+    primesieve_verif_nth_approx = nullptr;
+    if (t.size() > 6 && t[6].rfind("abs=", 0) == 0) { nthApproxValue = u64(t[6].substr(4)); primesieve_verif_nth_approx = nthApproxConst; }
     std::string res;
     bool err = false;
     uint64_t v = 0;
@@ -817,6 +825,7 @@ int streamNth(std::istream& in)
     }
     std::cout << "\n";
   }
+  primesieve_verif_nth_approx = nullptr;
   primesieve::set_num_threads(1 << 20);
   primesieve::set_sieve_size(256);
   return 0;
